@@ -22,6 +22,12 @@ type FuncResult struct {
 	Err      string // broken: contract error etc.
 	Secs     float64
 	ParamTerms map[string]string
+	Fn      *ssa.Function
+	Args    []Value
+	Results []Value
+	Entry   State
+	Exit    State
+	X       *Exec
 }
 
 // buildVC generates all obligations for one function under its contract.
@@ -46,7 +52,7 @@ func (e *Engine) buildVC(key string, con *Contract) (res *FuncResult) {
 	}
 	c := NewCtx(e.Prelude)
 	x := &Exec{E: e, C: c, Entry: State{}, Top: fn, TopCon: con, Assumed: map[string]bool{}, Inlined: map[string]bool{},
-		UsedCon: map[string]bool{}, nonnil: map[string]bool{}, knownLen: map[string]int{}, goalSeq: map[string]int{}}
+		UsedCon: map[string]bool{}, nonnil: map[string]bool{}, knownLen: map[string]int{}, unfolded: map[string]bool{}, goalSeq: map[string]int{}}
 	res.Ctx = c
 	x.safetyTags = []string{"C08"}
 	if con != nil && len(con.SafetyTags) > 0 {
@@ -90,6 +96,7 @@ func (e *Engine) buildVC(key string, con *Contract) (res *FuncResult) {
 			if err != nil {
 				panic(fmt.Sprintf("contract error: %s requires %s: %v", key, cl.Label, err))
 			}
+			x.autoUnfold(t.S, 2)
 			c.Assume(BoolLit(true), t)
 		}
 		// cover: the precondition is satisfiable
@@ -98,6 +105,7 @@ func (e *Engine) buildVC(key string, con *Contract) (res *FuncResult) {
 		entry = st.clone()
 	}
 	ec, est, results := x.execBody(fr, BoolLit(true), st, args)
+	res.Fn, res.Args, res.Results, res.Entry, res.Exit, res.X = fn, args, results, entry, est, x
 	if con != nil {
 		vars := x.contractVars(fn, args, results, "exit")
 		env := x.specEnv(est, entry, vars)
